@@ -387,7 +387,7 @@ def run(ck, facts):
             for kind, a, b in st:
                 if kind == "if":
                     for y in C.walk(a):
-                        if y.get("k") == "field" and C.strip(y.get("e") or {}).get("n") == "info":
+                        if y.get("k") == "field" and "AttributeInfo" in (y.get("bty") or ""):     # a flag of the item's extracted attribute record, whatever the local is called
                             neg = any(z.get("k") in ("un", "unary") and z.get("op") == "Not" for z in C.walk(a))
                             flags.add(("" if (b == "t") != neg else "!") + y["n"])
             sites.append(sorted(flags))
